@@ -155,9 +155,12 @@ impl Merge for WeightedMean {
             return;
         }
         let total_weight_sum = self.weight_sum + other.weight_sum;
-        self.weighted_avg = (self.weight_sum * self.weighted_avg
-            + other.weight_sum * other.weighted_avg)
-            / total_weight_sum;
+        // Move the mean towards the other mean instead of pooling the weighted
+        // sums: the products `weight_sum * weighted_avg` underflow for samples
+        // close to the smallest normal numbers and small weights, which pushed
+        // the merged mean outside the range of the two means.
+        self.weighted_avg += (other.weight_sum / total_weight_sum)
+            * (other.weighted_avg - self.weighted_avg);
         self.weight_sum = total_weight_sum;
     }
 }
